@@ -115,20 +115,38 @@ Definition nl_state_of (o : outcome (list gval * option gval)) : outcome nl :=
 Definition nl_answer_of (o : outcome (list gval * option gval)) : outcome (option bytes) :=
   obind o (fun p => match fst p with [GvBytes v] => Ok (Some v) | [GvNil] => Ok None | _ => Err end).
 
+(* the answer of a Count (a uint), of a First *)
+Definition nl_count_of (o : outcome (list gval * option gval)) : outcome nat :=
+  obind o (fun p => match fst p with [GvInt z] => if (z <? 0)%Z then Err else Ok (Z.to_nat z) | _ => Err end).
+Definition nl_first_of (o : outcome (list gval * option gval)) : outcome lrv :=
+  obind o (fun p => match fst p with [GvLrv e] => Ok e | _ => Err end).
+
+(* Count has a pointer receiver: the state after it is the state ITS BODY leaves behind the pointer; Get and First have
+   value receivers *)
 Definition nl_step_t (tbl : list (gfn gname)) (l : nl) (o : nop) : outcome nl :=
   match o with
   | OSet t v => nl_state_of (nlv_set_t tbl l t v)
   | OAppend t v => nl_state_of (nlv_append_t tbl l t v)
   | OAdd t v => nl_state_of (nlv_add_t tbl l (t, v))
-  | OGet _ => Ok l
+  | OCount => nl_state_of (nlv_count_t tbl (pnl l))
+  | OGet _ | OFirst => Ok l
+  end.
+
+(* nl_obs of Model/Nlv.v with every call going through the table: the bodies of Get, Count and First *)
+Definition nl_obs_t (tbl : list (gfn gname)) (l : nl) (o : nop) : outcome (list nobs) :=
+  match o with
+  | OGet t => obind (nl_answer_of (nlv_get_t tbl l t)) (fun a => Ok [AGet a])
+  | OCount => obind (nl_count_of (nlv_count_t tbl (pnl l))) (fun n => Ok [ACount n])
+  | OFirst => obind (nl_first_of (nlv_first_t tbl l)) (fun e => Ok [AFirst e])
+  | _ => Ok []
   end.
 
 (* nl_run of Model/Nlv.v with every call going through the table *)
-Fixpoint nl_run_t (tbl : list (gfn gname)) (l : nl) (ops : list nop) : outcome (nl * list (option bytes)) :=
+Fixpoint nl_run_t (tbl : list (gfn gname)) (l : nl) (ops : list nop) : outcome (nl * list nobs) :=
   match ops with
   | [] => Ok (l, [])
   | o :: r =>
-      obind (match o with OGet t => obind (nl_answer_of (nlv_get_t tbl l t)) (fun a => Ok [a]) | _ => Ok [] end) (fun out =>
+      obind (nl_obs_t tbl l o) (fun out =>
       obind (nl_step_t tbl l o) (fun l' =>
       obind (nl_run_t tbl l' r) (fun p => Ok (fst p, out ++ snd p))))
   end.
